@@ -200,6 +200,51 @@ def w_reuse(task):
     return part
 
 
+def w_shared_params(task):
+    """histories whose Contexts are all built with ONE user-supplied parameters dict; the last text must equal the text
+    generated alone with a fresh copy of that dict"""
+    fa = setup_repo_import()
+    part = new_part()
+    ref = {}
+    for req in {tuple(r) for pair in task["pairs"] for r in pair}:
+        ref[req] = in_child(lambda: {"s": gen.sha(gen.shared_params_generate(fa, [req], dict(gen.SHARED_PARAMS))[0])}).get("s")
+    for pair in task["pairs"]:
+        hist = [tuple(r) for r in pair]
+        res = in_child(lambda: {"s": [gen.sha(t) for t in gen.shared_params_generate(fa, hist, dict(gen.SHARED_PARAMS))]})
+        part["evaluations"] += 1
+        part["nontrivial"] += 1 if hist[0] != hist[1] else 0
+        part["counters"]["shared_params_transitions"] = part["counters"].get("shared_params_transitions", 0) + len(hist)
+        if "error" in res:
+            add_violation(part, "shared-parameters-history-fails", f"{hist}: {res['error']}", {"kind": "shared-params", "history": [list(h) for h in hist]})
+            continue
+        if res["s"][-1] != ref[hist[-1]]:
+            req = hist[-1]
+            add_violation(part, f"shared-parameters-dict-dependent:{req[0]}:{req[1]}", f"Contexts built with one shared parameters dict: after {hist[0]} the text of {req} differs from its text with a fresh copy of the dict", {"kind": "shared-params", "history": [list(h) for h in hist]})
+    part["samples"].append({"shared_parameters_pairs": len(task["pairs"])})
+    return part
+
+
+def w_registry(task):
+    """user definitions (re-)registered in the global definition registry between requests: after a registration the
+    generated text is that of the registered definition, whatever was requested before"""
+    fa = setup_repo_import()
+    part = new_part()
+    for name in gen.USER_DEFS:
+        want = in_child(lambda: {"t": [gen.sha(t) for t in gen.registry_history(fa, name, ["reg", "gen"])]})
+        for events in (["gen", "reg", "gen"], ["gen", "gen", "reg", "gen"], ["reg", "gen", "gen"], ["gen", "reg", "gen", "gen"], ["reg", "gen", "reg", "gen"]):
+            got = in_child(lambda: {"t": [gen.sha(t) for t in gen.registry_history(fa, name, events)]})
+            part["evaluations"] += 1
+            part["nontrivial"] += 1
+            part["counters"]["registry_transitions"] = part["counters"].get("registry_transitions", 0) + len(events)
+            if "error" in got or "error" in want:
+                add_violation(part, "registry-history-fails", f"{name} {events}: {got} / {want}", {"kind": "registry", "name": name, "events": events})
+                continue
+            if got["t"][-1] != want["t"][-1]:
+                add_violation(part, f"registry-history-dependent:{name}", f"{name}: after the events {events} the generated text differs from the text of [register, generate]", {"kind": "registry", "name": name, "events": events})
+    part["samples"].append({"registry_histories": list(gen.USER_DEFS)})
+    return part
+
+
 def euler_circuit(n):
     """Eulerian circuit of the complete digraph with loops on n vertices: every ordered pair adjacent once."""
     adj = {v: list(range(n)) for v in range(n)}
@@ -293,6 +338,16 @@ def run(run):
     seq = list(range(total_walk))
     run.map(MOD, "w_reuse", [dict(target=t, lengths=[2, 3] if not thorough else [2, 3, 4]) for t in gen.REUSE_TARGETS])
     trans += int(run.counters.pop("reuse_transitions", 0))
+    # one shared user parameters dict: all ordered pairs of the complex (and, thorough, all) requests of numpy and python
+    sp = [r for r in shipped if r[0] in ("numpy", "python") and ("complex" in str(getattr(fa.targets, r[0]).trace_arguments[r[1]][r[2]]) or thorough)]
+    if not thorough:
+        sp = [r for r in sp if "64" in str(getattr(fa.targets, r[0]).trace_arguments[r[1]][r[2]]) or r[0] == "python"]
+    sp_pairs = [[list(a), list(b)] for a in sp for b in sp]
+    run.counters["shared_parameters_requests"] = len(sp)
+    run.map(MOD, "w_shared_params", [dict(pairs=sp_pairs[i::64]) for i in range(64)])
+    trans += int(run.counters.pop("shared_params_transitions", 0))
+    run.map(MOD, "w_registry", [dict()])
+    trans += int(run.counters.pop("registry_transitions", 0))
     seeds = [0, 1, 2, 12345] if not thorough else list(range(0, 31)) + [12345]
     seeds = seeds[:-1] + [(run.seed * 7919 + 13) % 4294967295]
     run.map(MOD, "w_seed", [dict(seed=s, reqs=[list(r) for r in reqs], table=table) for s in seeds])
@@ -308,6 +363,7 @@ def run(run):
         + ("(all table requests); all triples over 36; " if thorough else "(subset covering every (target, function)); ") + f"all ordered pairs over the {len(SY)} small-graph requests and between them and {len(bridge)} table requests; "
         + f"{nw} long walks covering an Eulerian circuit of the complete request digraph ({len(seq)} generations); full catalogue under {len(seeds)} hash seeds in both orders; "
         f"all sequences of length 2..{4 if thorough else 3} of {len(gen.REUSE_FUNCS)} same-signature definitions on ONE Context per target (text equal to the fresh-Context text up to renaming of generated names); "
+        "all ordered pairs of complex numpy/python requests on Contexts that share one user parameters dict (text equal to the text with a fresh copy); user definitions re-registered between requests; "
         "states = distinct values of (tmp-symbol counter, definition registry, warn-once cache size, vfunc cache size) observed after a history"
     )
     run.assumptions = ["requests that raise NotImplementedError count as deterministic text (type and message)"]
@@ -318,6 +374,12 @@ def replay(case):
     part = new_part()
     if case.get("kind") == "seed":
         return [("seed: re-run the tier", str(case))]
+    if case.get("kind") == "shared-params":
+        p2 = w_shared_params(dict(pairs=[case["history"]]))
+        return [(v["sig"], v["msg"]) for v in p2["violations"]]
+    if case.get("kind") == "registry":
+        p2 = w_registry(dict())
+        return [(v["sig"], v["msg"]) for v in p2["violations"] if v["case"].get("name") == case["name"]]
     if case.get("kind") == "reuse":
         texts = gen.reuse_generate(fa, case["target"], case["seq"])
         fresh = gen.reuse_generate(fa, case["target"], case["seq"][-1:])
